@@ -89,7 +89,21 @@ const UNITS: &[&str] = &[
 ];
 /// every program message of 1..=3 units from a pool of 30 (relative, absolute, common, faulty, empty), alone and after
 /// / before a second message; with and without a trailing ';'
+/// compound messages streamed through process (C02 is observed at the handler log of run AND of process)
+const COMPOUND_STREAMS: &[&str] = &[
+    "SOUR:LEV 5;STEP 2;:LEV?\nLEV?\n", "DISP:TEXT 'a';TEXT 'x\ny';TEXT?\nLEV?\n", "SOUR:LEV 1;RANG 2;:DATA:BLOC #11z;BLOC #13a\nb;BLOC?\n",
+    "SOUR:LEV:STEP 1;STEP 2;:SOUR:LEV 3;LEV?;:LEV?\n", "*RST;SOUR:LEV 9;*IDN?;LEV?\nLEV?\n", "CONF:SOUR:LEV?;LEV?;:SOUR:LEV?\n", "SOUR:LEV 1;\nLEV?\n;\nLEV?\n",
+    "SOUR:SUB:MODE ON;MODE OFF;:SOUR:MODE 1\n", "DISP:TEXT 'q';*RST;TEXT \"u\nv\";TEXT?\n", "SOUR:LEV 999;RANG 3;NOPE;LEV?\nLEV?\n",
+];
 fn g_compound(seed: u64, emit: Emit) {
+    for m in COMPOUND_STREAMS {
+        let m = m.as_bytes().to_vec();
+        let mut cutsets: Vec<Vec<usize>> = (1..m.len()).map(|i| vec![i]).collect();
+        cutsets.push((1..=m.len()).collect()); cutsets.push(vec![]);
+        for cuts in cutsets {
+            if !emit(Scenario { mode: Mode::Process { n: 64, cuts, yields: 0, fail_at: None }, input: m.clone(), whole: true, base: None }) { return; }
+        }
+    }
     if scale_of(seed) > 1 {
         // thorough: every message of 4 units from the first 14 pool entries (38 416)
         let k = 14;
@@ -381,8 +395,14 @@ const STREAMS: &[&str] = &[
     "DISP:TEXT 'x\nDISP:TEXT ' BAD\nLEV?\n'\nLEV?\n", "LEV?;DISP:TEXT 'x\nDISP:TEXT ' BAD\n'\nLEV?\n", "SOUR:LEV 3;LEV?;:DISP:TEXT \"x\nSOUR:LEV 4;:DISP:TEXT \" BAD\n\";LEV?\n",
     // a query whose response is the terminator alone
     "MEAS:NOTH?\nLEV?\n", "MEAS:NOTH?;NOTH?\n",
+    // faulty messages with a stray quote / block header (a faulty message is complete at its terminator: nothing is withheld)
+    "DISP:TEXT don't\n*IDN?\n", "LEV?;NOPE \"abc\nLEV?\n", "LEV? it's\nLEV?\n", "SOUR:LEV 1 #15\nLEV?\n", "NOPE 'x\nLEV?\n'\nLEV?\n",
+    // white space other than the blank (NUL, TAB, CR, 0x1F) as the only separator, so that it can fall on a read boundary
+    "SOUR:LEV\x007;LEV?\n", "SOUR:LEV\x1f7\x00;\x00LEV?\x00\n", "MATH:SUM?\t1\x00,\x002\x00,3\x00\nLEV?\r\n",
+    // relative units with a newline in the payload, below a path that is not the root
+    "SOUR:LEV 5;STEP 2;:DISP:TEXT 'a';TEXT 'x\ny';TEXT?\n", "DATA:BLOC #11a;BLOC #13x\ny;BLOC?\n",
 ];
-/// 34 streams x N in {4,5,8,10,16,21,32,43,64} x every split into reads for streams of at most 12 bytes, and for longer ones:
+/// 44 streams x N in {4,5,8,10,16,21,32,43,64} x every split into reads for streams of at most 12 bytes, and for longer ones:
 /// single bytes, every 2-split, every fixed read size 2..=9, empty reads before / between / after, 40 sampled
 /// compositions; each also with 1 and 3 suspensions per transport call. Compared with the SAME stream delivered by one
 /// read per buffer fill (metamorphic: the reference is the real code itself), so that only the dependence on the
@@ -524,7 +544,7 @@ fn g_queue(seed: u64, emit0: Emit) {
 }
 
 // ---------------------------------------------------------------- C10
-/// 34 streams x N in {8,32,64} x four chunkings (one with empty reads), with a transport error injected at every index of the read / write /
+/// 44 streams x N in {8,32,64} x four chunkings (one with empty reads), with a transport error injected at every index of the read / write /
 /// flush call sequence (and none): the ordering write -> flush -> read, no write without a response, the injected
 /// error returned unchanged with no further transport call
 fn g_transport(_seed: u64, emit: Emit) {
@@ -557,6 +577,22 @@ const WS: &[&[u8]] = &[b" ", b"\t", b"\r", b" \x0b\x0c ", b"\x00\x01\x1f"];
 /// white-space strings covering bytes 0-9 and 11-32; every header also in lower case and in long form; LF and CR LF.
 /// Compared with the un-spaced upper-case short-form message (metamorphic: the reference is the real code itself).
 fn g_lexical(_seed: u64, emit: Emit) {
+    // through process: every white-space byte 0..=9, 11..=32 in a single slot, with a read boundary at every position
+    // (white space must not depend on where the transport cuts the stream)
+    for tpl in ["SOUR:LEV@7;LEV?\n", "SOUR:LEV 7@;@LEV?@\n", "MATH:SUM? 1@,@2,3@\n"] {
+        let base_in: Vec<u8> = tpl.bytes().filter(|b| *b != b'@').collect();
+        let base_in = if tpl.starts_with("SOUR:LEV@") { b"SOUR:LEV 7;LEV?\n".to_vec() } else { base_in };
+        let base = Scenario { mode: Mode::Process { n: 64, cuts: vec![], yields: 0, fail_at: None }, input: base_in, whole: false, base: None };
+        for w in (0u8..=32).filter(|b| *b != 10) {
+            let v: Vec<u8> = tpl.bytes().map(|b| if b == b'@' { w } else { b }).collect();
+            let l = v.len();
+            let mut cutsets: Vec<Vec<usize>> = (1..l).map(|i| vec![i]).collect();
+            cutsets.push((1..=l).collect());
+            for cuts in cutsets {
+                if !emit(Scenario { mode: Mode::Process { n: 64, cuts, yields: 0, fail_at: None }, input: v.clone(), whole: false, base: Some(Box::new(base.clone())) }) { return; }
+            }
+        }
+    }
     // exchanging short and long forms / letter case: every spelling of every declaration against its all-long-form,
     // upper-case spelling
     for (id, d) in DECLS.iter().enumerate() {
@@ -644,7 +680,7 @@ pub const FAMILIES: &[Family] = &[
     Family { name: "headers", props: &["C01"], kinds: &["handler", "error", "panic", "hang"], gen: g_headers,
         bound: "interface T2 (51 declarations + 3 requested standard commands): every allowed spelling x 3 letter cases x relative/absolute; per level every cut between short and long form, two extensions, level dropped / doubled / appended; query mark toggled; 8 undeclared standard headers" },
     Family { name: "compound", props: &["C02"], kinds: &["handler", "flush", "error", "panic", "hang"], gen: g_compound,
-        bound: "every message of 1..=3 units from a pool of 30 (27 930 messages), the 1- and 2-unit ones also after 5 different preceding messages and with a trailing ';'; thorough tier: also every message of 4 units from 14 of them" },
+        bound: "every message of 1..=3 units from a pool of 30 (27 930 messages), the 1- and 2-unit ones also after 5 different preceding messages and with a trailing ';'; 10 compound streams through process (N = 64) with a read boundary at every position; thorough tier: also every message of 4 units from 14 of them" },
     Family { name: "args", props: &["C03"], kinds: &["args", "handler", "error", "panic", "hang"], gen: g_args,
         bound: "4 single-integer handlers x 278 literals; 6 multi-parameter patterns x 278 x 5; 22 boolean, 14 string, 12 block, 33 real literals; parameter counts 0..=12 for all 54 declarations" },
     Family { name: "responses", props: &["C04"], kinds: &["response", "flush", "writer", "panic", "hang"], gen: g_responses,
@@ -654,15 +690,15 @@ pub const FAMILIES: &[Family] = &[
     Family { name: "faulty", props: &["C06"], kinds: &["handler", "error", "panic", "hang"], gen: g_faulty,
         bound: "59 kinds of faulty unit (9 of them not valid UTF-8) x 5 positions in a message x 7 surrounding good messages; run on one buffer and process (N = 64) with reads of 1, 5 and all bytes" },
     Family { name: "chunking", props: &["C07"], kinds: &["handler", "error", "response", "transport", "args", "panic", "hang"], gen: g_chunking,
-        bound: "34 streams x N in {4,5,8,10,16,21,32,43,64} x all compositions (length <= 12; thorough tier: <= 16) or single bytes / all 2-splits / fixed sizes 2..=9 / empty reads / 40 sampled compositions; 0, 1, 3 suspensions per transport call; reference = same stream in maximal reads (real code); and, for streams of fitting messages, reference = the real run one message at a time" },
+        bound: "44 streams x N in {4,5,8,10,16,21,32,43,64} x all compositions (length <= 12; thorough tier: <= 16) or single bytes / all 2-splits / fixed sizes 2..=9 / empty reads / 40 sampled compositions; 0, 1, 3 suspensions per transport call; reference = same stream in maximal reads (real code); and, for streams of fitting messages, reference = the real run one message at a time" },
     Family { name: "containers", props: &["C08"], kinds: &["handler", "args", "error", "rest", "panic", "hang"], gen: g_containers,
         bound: "payloads of 1..=3 (thorough tier: 1..=4) bytes from 12 special bytes in strings of both quote kinds and blocks, 7 message shapes (incl. a relative unit behind a compound unit and behind a common command); run whole and process (N = 64) with a read boundary at every position; reference = one run over the whole stream; 4 faulty messages after which run() hands back an incomplete rest, every 1- and 2-split" },
     Family { name: "queue", props: &["C09"], kinds: &["queue", "error", "response", "handler", "panic", "hang"], gen: g_queue,
         bound: "queue of capacity 3: every sequence of 1..=4 operations from a pool of 15 (54 240); every sequence of 1..=9 operations from {undefined header, handler error, ERRor?, COUNt?} followed by a drain (349 524); every error number -420..=60 raised and read back; each on the logging device and on devices that own StaticErrorQueue<N> directly (N = 3, and 1, 2, 5 in turn); thorough tier: sequences of up to 10 operations" },
     Family { name: "transport", props: &["C10"], kinds: &["transport", "panic", "hang"], gen: g_transport,
-        bound: "34 streams x N in {8,32,64} x 4 chunkings (one with empty reads) x a transport error at every call index (and none)" },
+        bound: "44 streams x N in {8,32,64} x 4 chunkings (one with empty reads) x a transport error at every call index (and none)" },
     Family { name: "lexical", props: &["C11"], kinds: &["handler", "args", "error", "response", "rest", "panic", "hang"], gen: g_lexical,
-        bound: "21 templates with 3..=11 white-space slots: every subset of slots x 5 white-space strings (bytes 0-9, 11-32); lower case, long forms, CR LF on every fifth; reference = the un-spaced message (real code); every spelling of every declaration in 4 letter cases against its long upper-case spelling" },
+        bound: "21 templates with 3..=11 white-space slots: every subset of slots x 5 white-space strings (bytes 0-9, 11-32); lower case, long forms, CR LF on every fifth; reference = the un-spaced message (real code); every spelling of every declaration in 4 letter cases against its long upper-case spelling; 3 templates through process with every white-space byte and a read boundary at every position" },
     Family { name: "finality", props: &["C12"], kinds: &["rest", "error", "handler", "panic", "hang"], gen: g_finality,
         bound: "51 unit texts cut at every byte position, the complete ones continued by 20 tails; thorough tier: every tail and every pair of tails behind every cut" },
 ];
